@@ -28,6 +28,8 @@ use roto::verif::Event;
 pub enum Point {
     Start,
     Lock { mutex: usize, site: &'static str },
+    /// a `roto::verif::sync::Mutex` (probe: see `roto::verif::mutex_is_free`)
+    MutexLock { mutex: usize, probe: usize, file: &'static str, line: u32 },
     Use { ptr: usize, site: &'static str },
     Yield(u32),
     RegistryLock,
@@ -135,6 +137,11 @@ fn sink(ev: &Event) {
         Event::TypeRegistryLock => {
             if tid != MAIN {
                 point_in(&sh, tid, Point::RegistryLock);
+            }
+        }
+        Event::MutexLock { mutex, probe, file, line } => {
+            if tid != MAIN {
+                point_in(&sh, tid, Point::MutexLock { mutex, probe, file, line });
             }
         }
         Event::PtrMade { ptr, buf, elem_size } => {
@@ -330,6 +337,8 @@ pub fn run(bodies: Vec<ThreadSpec>, prefix: &[usize]) -> Exec {
             .filter(|t| match &st.status[*t] {
                 // SAFETY: the parked thread holds a handle of the list it is about to lock
                 Status::At(Point::Lock { mutex, .. }) => unsafe { roto::verif::list_mutex_is_free(*mutex) },
+                // SAFETY: the parked thread holds a handle of the value that owns the mutex
+                Status::At(Point::MutexLock { mutex, probe, .. }) => unsafe { roto::verif::mutex_is_free(*mutex, *probe) },
                 _ => true,
             })
             .collect();
